@@ -249,6 +249,25 @@ func returnsOf(rel, recv, fn string) string {
 	return strings.Join(out, " | ")
 }
 
+// ifCondsWith: the printed conditions of the `if` statements of the function whose condition
+// contains the fragment, in source order, joined with " | " (function literals included).
+func ifCondsWith(rel, recv, fn, frag string) string {
+	fd := findFunc(rel, recv, fn)
+	if fd == nil {
+		return "MISSING"
+	}
+	var out []string
+	ast.Inspect(fd.Body, func(x ast.Node) bool {
+		if v, ok := x.(*ast.IfStmt); ok {
+			if c := src(v.Cond); strings.Contains(c, frag) {
+				out = append(out, c)
+			}
+		}
+		return true
+	})
+	return strings.Join(out, " | ")
+}
+
 // firstPos: byte offset of the first occurrence of a source fragment inside a function body
 // (-1 if absent). Used for "A happens before B" facts.
 func firstPos(rel, recv, fn, frag string) int {
@@ -388,6 +407,9 @@ func main() {
 	}
 	// orderings inside functions
 	facts = append(facts, fact{"ord_rewrite_clamp_scan", "op", before("value.go", "valueLog", "rewrite", "gcActive.Store(true)", ".iterate("), "value.go:valueLog.rewrite [gcActive.Store(true) vs scan]"})
+	// the #2286 clamp of subcompact applies to every compaction while a rewrite is in flight (C15)
+	facts = append(facts, fact{"cond_subcompact_gc_clamp", "op", ifCondsWith("levels.go", "levelsController", "subcompact", "gcActive"), "levels.go:levelsController.subcompact [conditions of the if statements mentioning gcActive]"})
+	facts = append(facts, fact{"cond_subcompact_gc_clamp_inner", "op", ifCondsWith("levels.go", "levelsController", "subcompact", "gcMax"), "levels.go:levelsController.subcompact [condition of the if that lowers discardTs to gcDiscardTs]"})
 	facts = append(facts, fact{"ord_flush_manifest_wal", "op", before("levels.go", "levelsController", "addLevel0Table", "manifest.addChanges", "tryAddLevel0Table"), "levels.go:addLevel0Table [manifest record vs publishing the table]"})
 	facts = append(facts, fact{"ord_compact_manifest_replace", "op", before("levels.go", "levelsController", "runCompactDef", "manifest.addChanges", "replaceTables"), "levels.go:runCompactDef [manifest vs replaceTables]"})
 	facts = append(facts, fact{"ord_compact_replace_delete", "op", before("levels.go", "levelsController", "runCompactDef", "replaceTables", "deleteTables"), "levels.go:runCompactDef [replaceTables vs deleteTables]"})
